@@ -1576,14 +1576,15 @@ def gen_tracked_circuit(rng, width, ncmds, opts=None):
     def free_wires(pred=None):
         return [w for w in r.pool if not (w.lin and w.used) and w not in table and (pred is None or pred(w.t))]
 
-    def gate_args(k):
-        """k arguments: tracked indices (distinct) and free wires, with their types"""
+    def gate_args(k, pending=()):
+        """k arguments: tracked indices (distinct) and free wires, with their types (`pending`: nodes of the
+        `extend` call being assembled — their outputs cannot be named yet)"""
         live = [i for i, w in enumerate(table) if w is not None]
         rng.shuffle(live)
         args, tys_ = [], []
         for _ in range(k):
             fw = free_wires()
-            held = [w for w in table if w is not None and copyable(w.t)]
+            held = [w for w in table if w is not None and copyable(w.t) and not (w.w[0] == "out" and w.w[1] in pending)]
             if held and rng.random() < 0.12:
                 # a wire that is (also) tracked, passed EXPLICITLY: an ordinary use of a copyable value; the index
                 # keeps denoting it
@@ -1687,7 +1688,7 @@ def gen_tracked_circuit(rng, width, ncmds, opts=None):
         elif x < 0.6:
             coms, names, post, items = [], [], [], []
             for _ in range(rng.randint(1, 3)):
-                args, tys_ = gate_args(rng.randint(1, 2))
+                args, tys_ = gate_args(rng.randint(1, 2), names)
                 op, outs = gate(args, tys_)
                 n = g.fn()
                 names.append(n)
